@@ -22,4 +22,14 @@ CHECKS["C13"] = {
     "note": "Not shown by the proof: absence of undefined behaviour in the unsafe blocks (only the index arithmetic behind get_unchecked is a lemma); histories run in-process, so invalid accesses are visible only if they crash or corrupt observations.",
     "design_ref": "DESIGN.md §4 C13",
 }
+CHECKS["C15"] = {
+    "technique": "Lean 4 proof over M-Num (exact Nat/Int arithmetic on decoded doubles) + bit-exact differential correspondence with number_to_string/to_int32/string_to_number/toFixed/toPrecision/toExponential/bitwise ops",
+    "text": "ToInt32/ToUint32 wrap modulo 2^32 for every integer, shift counts mod 32, round-half-up on the exact decimal expansion is nearest with ties up for every (n, d), "
+            "the exact expansion is exact, and the notation theorem (exponent form iff point outside (-6,21]) are Lean theorems for all inputs. The model's shortest-digit search "
+            "(exact interval arithmetic) is compared with the Rust output on structured families of doubles (all powers of 2 and 10 with neighbours, every exponent x boundary mantissas, "
+            "integers around 2^31..2^64, exact ties) plus random bit patterns; a python oracle (repr/Fraction) independently checks round-trip, shortest-ness, notation, exact rounding and correctly rounded parsing.",
+    "note": "Modelled, not verified: core::fmt digit generation and str::parse::<f64> (trusted parameters, compared differentially). Not yet covered: toString(radix) for non-integers, hex/octal/binary literals beyond 2^63. "
+            "shortest-digit minimality is checked per double (model self-check + python oracle), not proved for all doubles.",
+    "design_ref": "DESIGN.md §4 C15",
+}
 NOT_YET = {}
